@@ -2,6 +2,7 @@
 """Mutation campaign used to measure what the checks detect (not a registered check).
 
 usage: tools/mutants.py gen <n> <seed>        -> prints a list of mutants (jsonl) to stdout
+       tools/mutants.py gen-del <n> <seed>    -> statement-deletion mutants (an assignment or a state-changing call removed)
        tools/mutants.py run <slot> <file.jsonl> -> runs every mutant of the list whose index % NSLOTS == slot
 
 Each mutant is one token replacement on one line of non-test library code.  For each one, in a scratch
@@ -27,6 +28,23 @@ if os.environ.get("MUT_PROFILE") == "tools":
 SUITE = ["cargo", "test", "--offline", "-p", "mla"] if os.environ.get("MUT_PROFILE") != "tools" else ["cargo", "test", "--offline", "-p", "mlar", "-p", "curve25519-parser", "-p", "mla-bindings-c"]
 BUILD = ["cargo", "build", "--offline", "-p", "mla"] if os.environ.get("MUT_PROFILE") != "tools" else ["cargo", "build", "--offline", "-p", "mlar", "-p", "curve25519-parser", "-p", "mla-bindings-c"]
 NSLOTS = int(os.environ.get("MUT_SLOTS", "3"))
+
+
+DEL = re.compile(r"^\s*(?:(?:self\.)?[a-z_][\w.]*(?:\[[^\]]*\])?\s*(?:\+|-|\|)?=\s*[^;{}]+;|[a-z_][\w.]*\.(?:clear|truncate|flush|seek|rewind|set_position|push|insert|remove|extend_from_slice|copy_from_slice|update|zeroize|resize|drain|pop)\([^;{}]*\)\??;)\s*$")
+
+
+def gen_del(n, seed):
+    """statement-deletion mutants: one assignment or state-changing call removed"""
+    rnd = random.Random(seed)
+    cands = []
+    for f, last in FILES.items():
+        lines = open(os.path.join("/repo", f)).read().split("\n")
+        for i, l in enumerate(lines[:last], 1):
+            if l.strip().startswith("let ") or "debug_assert" in l or not DEL.match(l):
+                continue
+            cands.append({"file": f, "line": i, "col": 0, "op": 100, "from": l, "to": "", "text": l.strip()[:120]})
+    rnd.shuffle(cands)
+    for c in cands[:n]: print(json.dumps(c))
 
 
 def gen(n, seed):
@@ -112,4 +130,5 @@ def run(slot, listfile):
 
 if __name__ == "__main__":
     if sys.argv[1] == "gen": gen(int(sys.argv[2]), int(sys.argv[3]))
+    elif sys.argv[1] == "gen-del": gen_del(int(sys.argv[2]), int(sys.argv[3]))
     else: run(int(sys.argv[2]), sys.argv[3])
